@@ -58,7 +58,7 @@ def gen_specs(ck, n):
     specs = []
     for _ in range(n):
         nl, nr = rng.choice([(2, 2), (3, 1), (1, 3), (0, 3), (3, 0), (2, 1), (1, 2), (4, 0), (0, 4)])
-        mk = lambda: [rng.choice(["ok", "ok", "exc", "ok", "badres", "islocked", "islocked", "getname", "getsignals", "selfcall"]) for _ in range(rng.randint(2, 5))]
+        mk = lambda: [rng.choice(["ok", "ok", "exc", "ok", "badres", "islocked", "islocked", "getname", "getsignals", "selfcall", "big", "big", "huge"]) for _ in range(rng.randint(2, 5))]
         specs.append(dict(local=[mk() for _ in range(nl)], remote=[mk() for _ in range(nr)],
                           fault=rng.choice(["none", "none", "none", "remove", "disconnect", "stop_client"]),
                           nb=[rng.random() < 0.7 for _ in range(4)], burst=True))
